@@ -83,7 +83,10 @@ CLAIMED = {
         text="NARROW claim (protocol, not arithmetic). Decides: (R1) for IP, TCP, UDP, ICMP, ICMPv6 and the ICMP extension "
              "structure: checksum field zero when written, sum taken after the last covered byte over [buffer, end), every "
              "32-bit accumulator folded by a carry LOOP before narrowing (incl. Utils::sum_range), result complemented, kept "
-             "and patched back, pseudo-header built from the parent's addresses, size() and this class's protocol number; "
+             "and patched back AT THE CHECKSUM FIELD (offset of the field in the header struct written first, or the position at "
+             "which the literal 0 stood in for it; through memcpy, a cast of the buffer, or a second cursor), pseudo-header built "
+             "from the parent's addresses, size() and this class's protocol number (also through a file-local helper with an "
+             "out-parameter) and added to the layer's sum before anything is stored; "
              "(R2) no header field is assigned after its header went through the cursor unless patched back (35 "
              "serialisers); (R3) tags are looked up for the immediate inner layer and the IPv6 extension chain links header "
              "i-1 to header i for every i >= 1, and a private mirror of a tag field that the serialiser falls back to is updated "
@@ -144,7 +147,7 @@ CLAIMED = {
              "src/crypto.cpp (payload vectors, PTK, scratch blocks, OpenSSL block/digest sizes); (R3) WPA2 keys are "
              "looked up by source pair then destination pair; (R4) the step table of RSNHandshakeCapturer::do_insert: a "
              "message is appended iff it is the next expected one and a retransmission of the last stored message leaves "
-             "the partial handshake untouched. Two genuine memory-safety defects found here were repaired with fix: commits. (R5) session keys derived from a newly captured handshake, or supplied by the user, overwrite the entry for the same address pair (map subscript assignment; insert()/emplace() keep the stale key). (R6) WEP: every registration of a password keeps key_buffer_ at least 3 + the longest key (grow-only resize through max() or a guarded resize), since decrypt() copies IV + key unchecked; (R7) a completed handshake taken from the capturer is cleared on every path afterwards (directly or through a callee that always clears). (R8) find_ap, extract_addr_pair, extract_addr_pair_dst and the WEP look-up select BSSID / source / destination among addr1-3 as the IEEE 802.11 To-DS/From-DS table prescribes, for the three 3-address combinations. (R9) the capturer's table of partial handshakes is modified per station only (erase(key)); a clear() outside the user-requested reset is a violation.",
+             "the partial handshake untouched. Two genuine memory-safety defects found here were repaired with fix: commits. (R5) session keys derived from a newly captured handshake, or supplied by the user, overwrite the entry for the same address pair (map subscript assignment; insert()/emplace() keep the stale key). (R6) WEP: every registration of a password keeps key_buffer_ at least 3 + the longest key (grow-only resize through max() or a guarded resize), since decrypt() copies IV + key unchecked; (R7) a completed handshake taken from the capturer is cleared on every path afterwards (directly or through a callee that always clears). (R8) find_ap, extract_addr_pair, extract_addr_pair_dst and the WEP look-up select BSSID / source / destination among addr1-3 as the IEEE 802.11 To-DS/From-DS table prescribes, for the three 3-address combinations. (R9) the capturer's table of partial handshakes is modified per station only (erase(key)); a clear() outside the user-requested reset is a violation. (R10) every 16-bit word the TKIP key mixing (RC4Key::from_packet) builds from two octets of one array has the least significant octet at the lower offset (key, transmitter address), and the three words taken from the TKIP header are IV16 = (octet 0, octet 2), Lo16(IV32) = (octet 5, octet 4), Hi16(IV32) = (octet 7, octet 6) (found and fixed: IV32 was loaded with its octets swapped, so frames with TSC >= 65536 were never decrypted).",
         note="NOT decided: cipher correctness, PTK derivation, handshake orderings (seeded changes of that kind are not "
              "detected). One CCMP per-block offset depends on division/modulo and is listed as undecided, not proven.",
     ),
@@ -292,7 +295,7 @@ CLAIMED = {
              "(R6) iteration: increment_buffer / decrement_buffer (IPv6, hardware addresses) are the big-endian successor / predecessor "
              "for every carry length 0..N and return true exactly on wrap-around (abstract interpretation of the carry chain over "
              "{pivot, not pivot, any} bytes of the real length); the scalar IPv4 increment's flag means wrap-around too; the range "
-             "iterator takes its flag from increment(address_) in both the end sentinel and operator++ and compares address and flag. (R7) IPv4Address::from_prefix_length evaluated for all 33 prefix lengths and IPv6Address::from_prefix_length / operator/(HWAddress<6>, int) interpreted byte-wise for all 129 / 49: exact masks, no out-of-range shift (undefined behaviour reported as such); (R8) inet_ntop is given a buffer of at least INET6_ADDRSTRLEN / INET_ADDRSTRLEN bytes and that buffer's size. (R9) the hardware-address printer maps each of the 16 nibble values to its hexadecimal digit, high nibble first. (R4 also rejects scanf/strtoul-style parsing in the address text constructors.) (R10) the byte loops of HWAddress<6> (mask operators, broadcast fill) visit exactly positions 0..5. (R11) the post-increment of the range iterators steps through the pre-increment of the same object, never through itself (an unconditional self-call never returns), and returns the copy taken before (found and fixed: `it++` recursed until the stack was exhausted). Text conversion rules execute the code for all 256 byte values, so lookup tables, helpers and arithmetic are judged alike.",
+             "iterator takes its flag from increment(address_) in both the end sentinel (body or member initialiser after address_) and operator++, compares address and flag, and its operator!= is the exact negation of operator== (delegating or written out: truth table); the IPv4 successor and its wrap flag are EXECUTED on 13 boundary values when not written `++v == 0`. (R7) IPv4Address::from_prefix_length evaluated for all 33 prefix lengths and IPv6Address::from_prefix_length / operator/(HWAddress<6>, int) interpreted byte-wise for all 129 / 49: exact masks, no out-of-range shift (undefined behaviour reported as such); (R8) inet_ntop is given a buffer of at least INET6_ADDRSTRLEN / INET_ADDRSTRLEN bytes and that buffer's size. (R9) the hardware-address printer maps each of the 16 nibble values to its hexadecimal digit, high nibble first. (R4 also rejects scanf/strtoul-style parsing in the address text constructors.) (R10) the byte loops of HWAddress<6> (mask operators, broadcast fill) visit exactly positions 0..5. (R11) the post-increment of the range iterators steps through the pre-increment of the same object, never through itself (an unconditional self-call never returns), and returns the copy taken before (found and fixed: `it++` recursed until the stack was exhausted). Text conversion rules execute the code for all 256 byte values, so lookup tables, helpers and arithmetic are judged alike.",
         note="NOT decided: IPv4/IPv6 text round trip (delegated to inet_pton/ntop), agreement of < with numeric byte order "
              "(IPv4 host-order storage), prefix-length masks at /0,/31,/32,/127,/128, group structure of the hardware "
              "grammar, the order of visited addresses as a whole (the successor function and the end protocol are decided, R6) - value-level.",
